@@ -701,7 +701,7 @@ def check_noncanonical(ctx, n, rng):
         eII = [[dense[i][j] for j in Il] for i in Il]
         ebI = [b[i] - sum(dense[i][j] * x[j] for j in D) for i in Il]
         if sorted(Il) != sorted(I) or ([[as_int(v) for v in r] for r in AII.toarray()] if Il else []) != eII or ints(bI) != ebI:
-            ctx.fail('condense:noncanonical', 'condense on a CSR matrix with duplicate entries: wrong dense result', rep)
+            ctx.fail('condense:repeated-indices' if len(set(S)) != len(S) else 'condense:noncanonical', 'condense on a CSR matrix with duplicate entries: wrong dense result', rep)
     except Exception as e:  # noqa: BLE001
         ctx.fail(F6_KEY if has_empty_D else 'noncanonical:raises:' + type(e).__name__, f'{type(e).__name__}: {e} on a CSR matrix with duplicate entries', rep)
     if checksum(A, bb, xx, Sarr) != before:
